@@ -86,7 +86,7 @@ def fresh_rows(m, docs):
     for k, d in docs.items():
         if d["body"] is None and not d["xattrs"]:
             continue
-        if d["body"] is not None and d["is_json"]:
+        if d["body"] is not None and d["is_json"] and d["body"] != "":      # an empty body reaches the map function as {}
             try:
                 doc = json.loads(d["body"])
             except ValueError:
